@@ -34,11 +34,49 @@ def seq_check(check, level, assumptions, parts=None, nshards=None, timeout=None,
     return run
 
 
+def sched_check(level, assumptions, budget=None, shards=None):
+    """generic Engine B check: every scenario registered for the property, each sharded over worker processes."""
+    budget = budget or {"quick": 90, "thorough": 1200}
+
+    def run(prop, tier, seed, replay, t0):
+        binary = V.build_schedmc()
+        if replay:
+            return subprocess.run([binary, "replay", "-replay", replay]).returncode
+        names = subprocess.run([binary, "list", prop], capture_output=True, text=True).stdout.split()
+        if not names:
+            raise V.HarnessError("no scenarios registered for " + prop)
+        # determinism self-test (goroutine identity checked at every shim call) on every scenario
+        for n in names:
+            r = subprocess.run([binary, "selftest", "-scenario", n], capture_output=True, text=True, timeout=300)
+            if r.returncode != 0:
+                V.log(r.stdout[-3000:] + r.stderr[-3000:])
+                raise V.HarnessError("determinism self-test failed for scenario " + n)
+        nsh = (shards or {}).get(tier, V.NCPU)
+        jobs = []
+        for n in names:
+            for i in range(nsh):
+                jobs.append({"cmd": [binary, "explore", "-prop", prop, "-scenario", n, "-tier", tier, "-shard", str(i), "-nshards", str(nsh),
+                                     "-seed", str(seed), "-budget", str(budget[tier])], "name": "%s_%d" % (n, i)})
+        results, failures = V.run_jobs(jobs, os.path.join(V.SCRATCH, "work", prop), budget[tier] * 3 + 120)
+        merged = V.merge(results)
+        return V.finish(prop, level, tier, seed, merged, failures, assumptions + SCHED_ASSUMPTIONS, t0)
+
+    return run
+
+
+SCHED_ASSUMPTIONS = [
+    "baselibrary primitives (flag, asyncmap, bytequeue, routine, context, pools) are executed atomically ('quiet') unless a scenario sets fine mode; they are assumed linearizable at their call boundary",
+    "sync.Pool is replaced by a deterministic LIFO pool emptied at the start of every execution; weak-memory reorderings and unsynchronised data accesses are outside the scheduler's view",
+    "the transport is a model (vnet): ordered reliable byte stream with cut / half-close faults",
+]
+
+
 def golden_env(tier):
     return {"VERIF_GOLDEN": os.environ.get("VERIF_GOLDEN", os.path.join(V.VERIF, "golden", "c08_golden.json"))}
 
 
 PROPS = {
+    "C06": sched_check("model_checking", []),
     "C12": seq_check("c12", "model_checking", ["states are merged when the in-package dump of the complete writer state (err, state pointer nil-ness, flags, stack, tables, buffer length+hash) and the handle slots are equal: equal dumps have equal futures because the dump covers every field the writer reads", "first ops are distributed over shards with independent seen-sets (duplicates cost time only)"]),
     "C17": seq_check("c17", "exploration", ["allocation behaviour is measured with testing.AllocsPerRun with the GC disabled (pool eviction by the GC is outside the steady-state claim)", "ValueList.Values()/MessageList.Values()/Clone allocate by design and are not part of the read walk"]),
     "C13": seq_check("c13", "exploration", ["locality is compared through a fingerprint of all from-the-end decoders (64-bit FNV; a collision could hide a difference)"]),
